@@ -37,7 +37,24 @@ def exec_call(L, c, fresh, off, fill, seed):
     f, m = c["f"], 1 << c["m"]
     g = logical_inputs(f, m, seed)
     dv = float(1 << c["div"])
-    P = lambda n, fl=fill: Buf(n, off=off, fill=fl)
+    made = []
+
+    def P(n, fl=fill):
+        b = Buf(n, off=off, fill=fl)
+        made.append(b)
+        return b
+    try:
+        return _exec_call(L, c, fresh, f, m, g, dv, P)
+    finally:
+        if not all(b.canaries_ok() for b in made):
+            raise OutOfExtent("%s m=%d: write outside a buffer of the declared size" % (f, m))
+
+
+class OutOfExtent(Exception):
+    pass
+
+
+def _exec_call(L, c, fresh, f, m, g, dv, P):
     if f.startswith("reim4") and m < 4:
         return None
     if f in ("reim_fft_simple", "reim_ifft_simple", "cplx_fft_simple", "cplx_ifft_simple"):
@@ -147,7 +164,12 @@ def drive_hist(rec, hists):
             if not rec.progress(label):
                 continue
             L.events(clear=True)
-            out = exec_call(L, c, False, rng.choice([0, 8, 16, 24, 32, 40, 48, 56]), rng.choice([0x00, 0xFF, 0x7F]), rec.seed)
+            try:
+                out = exec_call(L, c, False, rng.choice([0, 8, 16, 24, 32, 40, 48, 56]), rng.choice([0x00, 0xFF, 0x7F]), rec.seed)
+            except OutOfExtent as e:
+                rec.violation("%s after %d calls of a history: %s" % (key, ncalls, e), {"call": c, "after_calls": ncalls})
+                L.events(clear=True)
+                continue
             if out is None:
                 continue
             ncalls += 1
@@ -169,7 +191,10 @@ def drive_hist(rec, hists):
                               {"call": c, "after_calls": ncalls})
             # the same logical call on a freshly built table, other offset / prefill
             if rng.random() < 0.5:
-                fo = exec_call(L, c, True, rng.choice([0, 8, 24, 56]), rng.choice([0x00, 0xFF]), rec.seed)
+                try:
+                    fo = exec_call(L, c, True, rng.choice([0, 8, 24, 56]), rng.choice([0x00, 0xFF]), rec.seed)
+                except OutOfExtent:
+                    fo = None
                 L.events(clear=True)
                 if fo != out:
                     rec.violation("%s through the cache differs from the same call on a freshly built table" % (key,),
